@@ -47,7 +47,7 @@ type variant struct {
 	PBonus int
 	// ByID: the consumer finishes a seed with a freshly built item that carries the seed's ID (the reactor
 	// tracks seeds by ID; which Go object carries the ID is not part of its contract)
-	ByID bool
+	ByID     bool
 	Inserts1 []string
 	Inserts2 []string
 }
@@ -166,9 +166,19 @@ func scenario(v variant) *vsched.Scenario {
 		return strings.Contains(p, "recv w.out") || strings.Contains(p, "reactor.go") && strings.Contains(p, "recv r.input")
 	}
 	sc.AtStep = func(x *vsched.Exec) error {
-		// (2) whenever no call is in flight the tokens in use equal the tracked seeds
-		if w.inflight == 0 && reactor.VerifAlive() {
+		// (2) whenever no call is in flight the tokens in use equal the tracked seeds. An insert that is parked
+		// waiting for a token (every token is in use) has not been accepted: it counts as not in flight
+		waiting := 0
+		for _, t := range x.ParkedThreads() {
+			if strings.Contains(t.Point, "select") && strings.Contains(t.Point, "send globalReactor.tokenPool") && !t.Enabled {
+				waiting++
+			}
+		}
+		if w.inflight == waiting && reactor.VerifAlive() {
 			if a, b := reactor.VerifTokens(), reactor.VerifTracked(); a != b {
+				if waiting > 0 {
+					return fmt.Errorf("at rest: %d tokens in use but %d seeds tracked while %d insert(s) wait for a token: a seed is tracked before it is accepted", a, b, waiting)
+				}
 				return fmt.Errorf("at rest: %d tokens in use but %d seeds tracked", a, b)
 			}
 		}
